@@ -204,7 +204,7 @@ def _substitute_original_strings(original_source: str, new_source: str) -> str:
 
         replacements[node] = most_common_original_formatting
 
-    return _replace_nodes(new_source, replacements)
+    return _replace_string_literals(new_source, replacements)
 
 
 def _substitute_original_fstrings(original_source: str, new_source: str) -> str:
@@ -248,7 +248,7 @@ def _substitute_original_fstrings(original_source: str, new_source: str) -> str:
             )[0][0]
             replacements[node] = most_common_original_formatting
 
-    return _replace_nodes(new_source, replacements)
+    return _replace_string_literals(new_source, replacements)
 
 
 def remove_nodes(source: str, nodes: Iterable[ast.AST], root: ast.Module) -> str:
@@ -488,6 +488,29 @@ def _replace_nodes(source: str, replacements: Mapping[ast.AST, ast.AST | str]) -
     for old, new in rewrites:
         rewrite = _Rewrite(old, new)
         new_source = _do_rewrite(new_source, rewrite)
+
+    if not core.is_valid_python(new_source):
+        return source
+
+    return new_source
+
+
+def _replace_string_literals(source: str, replacements: Mapping[ast.AST, str]) -> str:
+    """Replace string literals with other literals of the same value, character by character.
+
+    A literal that spans several lines is put back exactly as it was written. Going through
+    _do_rewrite would indent its continuation lines once more every time it is put back.
+    """
+    if all("\n" not in new for new in replacements.values()):
+        return _replace_nodes(source, replacements)
+
+    ranges = sorted(
+        ((core.get_charnos(old, source), new) for old, new in replacements.items()), reverse=True
+    )
+    new_source = source
+    for (start, end), new in ranges:
+        if not core.has_ignore_comment(source, core.Range(start, end)):
+            new_source = new_source[:start] + new + new_source[end:]
 
     if not core.is_valid_python(new_source):
         return source
